@@ -58,7 +58,9 @@ def run_tlc(module, cfg, workdir, env=None, workers=8, simulate=None, depth=None
         f.write(cfg)
     meta = os.path.join(workdir, "meta_" + tag)
     shutil.rmtree(meta, ignore_errors=True)
-    cmd = ["java", "-XX:+UseParallelGC", "-Xss64m"]
+    jtmp = os.path.join(workdir, "jtmp")
+    os.makedirs(jtmp, exist_ok=True)
+    cmd = ["java", "-XX:+UseParallelGC", "-Xss64m", "-Xmx" + os.environ.get("VERIF_TLC_HEAP", "6g"), "-Djava.io.tmpdir=" + jtmp]
     if dfs:
         cmd.append("-Dtlc2.tool.queue.IStateQueue=StateDeque")
     if java_opts:
@@ -114,9 +116,10 @@ def run_tlc(module, cfg, workdir, env=None, workers=8, simulate=None, depth=None
         m = re.match(r"^Error: Action property (\S+) is violated", line)
         if m:
             r.invariant_violated = m.group(1)
-        m = re.match(r"^<(\w+) line \d+, col \d+ to line \d+, col \d+ of module (\w+)>: (\d+):(\d+)", line)
+        m = re.match(r"^<(\w+) line \d+, col \d+ to line \d+, col \d+ of module (\w+)(?: \([\d ]+\))?>: (\d+):(\d+)", line)
         if m:
-            r.coverage[m.group(1)] = (int(m.group(3)), int(m.group(4)))
+            d0, t0_ = r.coverage.get(m.group(1), (0, 0))
+            r.coverage[m.group(1)] = (d0 + int(m.group(3)), t0_ + int(m.group(4)))
     with open(os.path.join(workdir, tag + ".out"), "w") as f:
         f.write(p.stdout)
     if simulate and not r.ok:
@@ -126,7 +129,7 @@ def run_tlc(module, cfg, workdir, env=None, workers=8, simulate=None, depth=None
     if not r.ok:
         if r.invariant_violated and allow_invariant_violation:
             return r
-        tail = "\n".join(p.stdout.splitlines()[-40:])
+        tail = "\n".join([ln[:300] for ln in p.stdout.splitlines() if not ln.startswith('"')][-25:])
         raise TLCError(f"TLC failed on {module} ({tag}), rc={p.returncode}:\n{tail}")
     return r
 
